@@ -167,6 +167,12 @@ class C01(Prop):
         add("sto-gs-after-last-block", b"# STOCKHOLM 1.0\nseq1 ACDEF\n\n#=GS seq2 DE foo\n//\n", "stockholm")
         add("sto-gs-unseen-name-before", b"# STOCKHOLM 1.0\n#=GS seq2 WT 1.0\nseq1 ACGT\n//\n", "stockholm", "dna")
         add("sto-gs-unseen-name-inside", b"# STOCKHOLM 1.0\nseq1 ACDEF\n#=GS seq2 AC foo\n//\n", "pfam")
+        # 810fb33: Clustal / PSI-BLAST readers stored a name cut at an embedded NUL (empty when the NUL came first)
+        for abc in ("text", "amino"):
+            for nm in (b"a\x00b", b"\x00ab", b"ab\x00"):
+                add("clustal-nul-in-name", b"CLUSTAL W (1.83) multiple sequence alignment\n\n" + nm + b" ACGT\nseq2 ACGT\n", "clustal", abc)
+                add("psiblast-nul-in-name", nm + b" ACGT\nseq2 ACGT\n", "psiblast", abc)
+                add("clustal-nul-in-name-block2", b"CLUSTAL W (1.83) multiple sequence alignment\n\nab ACGT\nseq2 ACGT\n\n" + nm + b" ACGT\nseq2 ACGT\n", "clustallike", abc)
         add("empty", b"", "auto", "guess"); add("empty-afa", b"", "afa", "text"); add("nul", b"\x00", "auto")
         # ef67b6d: phylip_check_sequential_unknown() tested p[0..w-1] on the LAST continuation line (heap over-read, visible on exact-size buffers)
         for src in ("allfile", "mmap", "mem"):
